@@ -136,7 +136,11 @@ func c01(r *hx.Run) {
 			tag := fmt.Sprintf("%s|chain%d", pk.kt, ci)
 			hx.ParallelFor(len(jobs), func(ji int) {
 				x := jobs[ji].x
-				for order := 0; order < 2; order++ {
+				orders := 2
+				if !pk.full {
+					orders = 1 // other key types: forged operations first in the store only (both orders for Ed25519)
+				}
+				for order := 0; order < orders; order++ {
 					var all []fx.Placed
 					if order == 0 {
 						all = append(append(all, x...), L...)
